@@ -547,6 +547,14 @@ func genHs(g *genCtx) {
 			b = a
 			b.rm = rb(16)
 			b.kg = rb(20)
+			b.bmcKG = b.kg
+		case 3: // same credentials and KG, another authentication / integrity algorithm the second time
+			a.kg = rb(20)
+			a.bmcKG = a.kg
+			b = a
+			b.rm = rb(16)
+			b.auth = []byte{1, 2, 3}[(int(a.auth)+g.rng.Intn(2))%3]
+			b.integ = []byte{1, 2, 4}[g.rng.Intn(3)]
 		}
 		var args []string
 		args = append(args, a.args(live(a, echo))...)
